@@ -1003,6 +1003,6 @@ MANIFEST_ENTRY = {
              'complex coordinates for the scalar evaluators, cupy/torch backends.'),
     'note': ('Trusted: Lean kernel + propext/Classical.choice/Quot.sound; tools/gen_c07.py (Python statements -> Lean; element-wise NumPy '
              'read point-wise, in-place products read as products; validated each run by executing the hand model next to the real '
-             'functions); the azimuthal convention of the Float comparison is the one proved in gen_zernike_nm; libm sqrt/sin/cos; scipy Gauss '
+             'functions; calls to same-module helpers whose body is a single return are inlined symbolically first); the azimuthal convention of the Float comparison is the one proved in gen_zernike_nm; libm sqrt/sin/cos; scipy Gauss '
              'nodes (tests only).  When an item is not translatable the run prints TIE-DEGRADED and its gen_* theorem is proved by the fallback branch.'),
 }
